@@ -218,8 +218,11 @@ def project_lecturers_post(self, n2, n3, result):
 # ------------------------------------------------------------------ C10 reader helper
 
 def simple_pref_post(pref_list, result):
-    _ev('_get_simple_pref_list_and_ranks')
     from . import outparse as op
+    # domain of this (auxiliary) contract: the helper as the pinned tree defines it - a list of string tokens
+    if not isinstance(pref_list, (list, tuple)) or not all(isinstance(t, str) for t in pref_list):
+        return True
+    _ev('_get_simple_pref_list_and_ranks')
     try:
         groups = op.parse_groups(list(pref_list))
     except op.ParseError:
